@@ -79,13 +79,17 @@ def run_case(case):
         S = set(in_uni) | set(held) | set(w)
         fw = {a: w.get(a, 0.0) for a in S}
         tgt = {a: d['quantity'] for a, d in sizer(tc, dict(fw)).items()} if S else {}
-        if set(tgt) != S:
-            raise Inconclusive('sizer did not size every asset')
+        sized_all = set(tgt) == S
+        if not sized_all:
+            # the sizer left assets out (its own contract is C10/C11's subject): an asset without a weight has
+            # target zero under either sizer, which is all the liquidation clause below needs
+            cls.add('sizer_omitted_assets')
+            tgt = {a: tgt.get(a, 0) for a in S}
         stats = {'target_allocations': []}
         orders = pcm(tc, stats=stats)
         exp = [(a, tgt[a] - held.get(a, 0)) for a in sorted(S) if tgt[a] - held.get(a, 0) != 0]
         got = [(o.asset, o.quantity) for o in orders]
-        if got != exp:
+        if sized_all and got != exp:
             raise Violation('rebalance at %s: orders %s, target - held is %s (held %s, target %s, universe %s, alpha %s)' % (
                 tc, got, exp, held, tgt, in_uni, w))
         for o in orders:
@@ -116,11 +120,11 @@ def run_case(case):
         t = to
         now = {a: d['quantity'] for a, d in b.get_portfolio_as_dict('p').items()}
         want = {a: n for a, n in tgt.items() if n != 0}
-        if now != want:
+        if sized_all and now != want:
             raise Violation('after the rebalance orders of %s filled: holdings %s, target %s' % (tc, now, want))
-        for a in forced:
-            if a in now:
-                raise Violation('held asset %s received no weight but still holds %s' % (a, now[a]))
+        for a in held:
+            if (a not in w or w[a] == 0) and a in now:
+                raise Violation('held asset %s received no weight at %s but still holds %s after the fills' % (a, tc, now[a]))
         outside = [a for a in held if a not in in_uni]
         if outside:
             cls.add('held_outside_universe')
